@@ -231,6 +231,9 @@ func (r *Report) Finish() int {
 	for k, v := range r.Extra {
 		cov[k] = v
 	}
+	if rp := os.Getenv("VERIF_RACE_PASS"); rp != "" {
+		cov["race_pass"] = rp
+	}
 	if len(r.knownHits) > 0 {
 		cov["known_findings_hit"] = r.knownHits
 	}
